@@ -66,6 +66,7 @@ type Explorer struct {
 	RingUsed         bool
 	BoundaryStops    int
 	OneShotTimeoutMs int
+	OneShotBudget    time.Duration // cap on the total time of escalated runs of this job (0 = none)
 	OneShotQueries   int
 	OneShotDecided   int
 	OneShotTime      time.Duration
@@ -330,6 +331,7 @@ func (c *Ctx) solve(wantModel bool, extra ...*smt.Term) (smt.Result, smt.Model) 
 		if len(disj) <= 256 && len(disj) > 1 {
 			rest := append(append([]*smt.Term{}, extra[:i]...), extra[i+1:]...)
 			unknown := false
+			nUnknown := 0
 			for _, d := range disj {
 				r, m := c.solve1(wantModel, append(append([]*smt.Term{}, rest...), d)...)
 				if r == smt.Sat {
@@ -337,6 +339,10 @@ func (c *Ctx) solve(wantModel bool, extra ...*smt.Term) (smt.Result, smt.Model) 
 				}
 				if r == smt.Unknown {
 					unknown = true
+					nUnknown++
+					if nUnknown >= 2 {
+						break // hard instance: do not grind through every disjunct
+					}
 				}
 			}
 			if unknown {
@@ -382,7 +388,10 @@ func (c *Ctx) solve1(wantModel bool, extra ...*smt.Term) (smt.Result, smt.Model)
 			return r, nil
 		}
 	}
-	// escalate: one-shot scripts in fresh solver processes
+	// escalate: one-shot scripts in fresh solver processes (within the job's budget)
+	if c.E.OneShotBudget > 0 && c.E.OneShotTime > c.E.OneShotBudget {
+		return smt.Unknown, nil
+	}
 	asserts := append(append([]*smt.Term{}, c.pc...), extra...)
 	var syms []*smt.Term
 	if wantModel {
